@@ -121,6 +121,13 @@ class C09(C.ProgramDiff):
             return ('f', src.pick(['do', 'do1']), (goal,))
         if k == 1:
             return ('f', 'all', (gen.gen_template(src, gen.QVARS, goal, self.cfg), goal, src.pick(gen.QVARS)))
+        if goal[0] == 'f' and len(goal[2]) >= 2 and src.n(3) == 0:
+            # call/N through call/M with extra arguments at both levels: call(call(p, A), B) is p(A, B)
+            j = 1 + src.n(len(goal[2]) - 1)
+            inner = ('f', 'call', (('a', goal[1]),) + goal[2][:j])
+            rest = goal[2][j:]
+            return src.pick([('f', 'call', (inner,) + rest), ('f', 'ap', (inner,) + rest[:2]) if len(rest) <= 2 else ('f', 'call', (inner,) + rest),
+                             ('f', 'do', (('f', 'call', (inner,) + rest),))])
         if goal[0] == 'f' and len(goal[2]) >= 1:
             m = 1 + src.n(min(2, len(goal[2])))
             keep, extra = goal[2][:-m], goal[2][-m:]
